@@ -17,7 +17,7 @@ pub fn gen(a: &Args) -> i32 {
         let mut r = Rng::for_case(a.seed, case);
         let levels = r.range(1, 4);
         let l0max = r.range(1, 3);
-        let vlog = r.chance(1, 4) as u8;
+        let vlog = r.chance(1, 3) as u8;
         writeln!(out, "case {case} {levels} {l0max} {vlog}").unwrap();
         st.bump(&format!("levels_{levels}"));
         let nk = r.range(2, KEYS.len() as u64) as usize;
@@ -43,7 +43,12 @@ pub fn gen(a: &Args) -> i32 {
                     let y = r.below(10);
                     if y < 6 {
                         vctr += 1;
-                        ws.push(format!("{k}={}", hex(format!("v{vctr}").as_bytes())));
+                        // with the value log on, values are large enough to roll vlog files over
+                        let mut val = format!("v{vctr}").into_bytes();
+                        if vlog == 1 {
+                            val.resize(150 + r.below(100) as usize, b'x');
+                        }
+                        ws.push(format!("{k}={}", hex(&val)));
                     } else if y < 9 {
                         ws.push(format!("{k}=DEL"));
                     } else {
@@ -132,6 +137,7 @@ fn build(path: &std::path::Path, o: (u8, usize, bool)) -> Tree {
     if o.2 {
         opts.enable_vlog = true;
         opts.vlog_value_threshold = 0;
+        opts.vlog_max_file_size = 512;
     }
     TreeBuilder::with_options(opts).build().expect("build")
 }
@@ -290,6 +296,7 @@ pub fn exec(a: &Args) -> i32 {
                     if o.2 {
                         b.enable_vlog = true;
                         b.vlog_value_threshold = 0;
+                        b.vlog_max_file_size = 512;
                     }
                     match TreeBuilder::with_options(b).build() {
                         Ok(t) => {
